@@ -95,6 +95,14 @@ NEEDS = {
 }
 
 
+# seeds that were confirmed and caught when made, and stopped manifesting after a later repair of /repo changed the mechanism they sat in
+OBSOLETE = {
+ "C09-m3": "confirmed and caught by C09 when made (commit 224e275); since the repairs 099ada9 / 9fe2a2f (LinearPolynomial.normalized) the mutated "
+           "branch of BaseDeferred.__mul__ no longer decides the value in the demonstrated shape: demo.py passes on the patched tree, so the "
+           "seed is kept for the record only",
+}
+
+
 def main():
     root = Path(__file__).resolve().parent.parent / "seeded"
     for d in sorted(root.iterdir()):
@@ -106,6 +114,8 @@ def main():
         m["needs_to_manifest"] = NEEDS.get(d.name, m.get("needs_to_manifest", "see notes.md"))
         m["how_confirmed"] = ("tools/seed_eval.sh: scratch worktree of /repo HEAD, patch applied with git apply, pinned suite run with the hook guard off, "
                               "demo.py run against the clean and the patched tree, then each listed check run with PDPY11_REPO=<patched worktree> --tier quick")
+        if d.name in OBSOLETE:
+            m["obsolete"] = OBSOLETE[d.name]
         caught = [r["check"] for r in m.get("runs", []) if r["exit"] == 1 and r["violation_lines"] > 0]
         m["caught_by"] = caught
         mp.write_text(json.dumps(m, indent=1) + "\n")
